@@ -38,8 +38,9 @@ SPECS = [
     dict(key="dbftMultipool", path="formal-models/dbftMultipool/dbftMultipool.tla", module="dbftMultipool", mc=None,
          invs=["TypeOK", "InvTwoBlocksAccepted", "InvFaultNodesCount"], constraint="ModelConstraint",
          extra_const="  /\\ MaxUndeliveredMessages = 6\n"),
-    dict(key="dbftCV3", path="formal-models/dbft2.1_threeStagedCV/dbftCV3.tla", module="dbftCV3", mc=None,
-         invs=["TypeOK", "InvTwoBlocksAccepted", "InvFaultNodesCount"], constraint="MaxViewConstraint", extra_const=""),
+    dict(key="dbftCV3", path="formal-models/dbft2.1_threeStagedCV/dbftCV3.tla", module="dbftCV3", mc="MC_dbftCV3.tla.in", mc_maxview=1,
+         invs=["TypeOK", "InvTwoBlocksAccepted", "InvFaultNodesCount"], constraint="MaxViewConstraint", extra_const="",
+         replay_configs=[([], []), ([0], [])], replay_configs_thorough=[([], []), ([], [0]), ([0], []), ([1], []), ([3], [])]),
     dict(key="dbftCentralizedCV", path="formal-models/dbft2.1_centralizedCV/dbftCentralizedCV.tla", module="dbftCentralizedCV", mc=None,
          invs=["TypeOK", "InvTwoBlocksAcceptedAdvanced", "InvFaultNodesCount"], constraint="MaxViewConstraint", extra_const=""),
 ]
@@ -109,7 +110,7 @@ def apalache(d, name, init, inv, length, timeout, nxt="NextC"):
 
 def tlc_replay(spec, maxview, fault, dead, timeout):
     """Search a concrete behaviour of the unmodified spec violating a stated invariant (replay of an alarm)."""
-    d = os.path.join(WORK, spec["key"], "tlc_%s_%s" % ("".join(map(str, fault)) or "n", "".join(map(str, dead)) or "n"))
+    d = os.path.join(WORK, spec["key"], "tlc_v%d_%s_%s" % (maxview, "".join(map(str, fault)) or "n", "".join(map(str, dead)) or "n"))
     shutil.rmtree(d, ignore_errors=True)
     os.makedirs(d)
     shutil.copy(os.path.join(REPO, spec["path"]), os.path.join(d, spec["module"] + ".tla"))
@@ -119,14 +120,27 @@ def tlc_replay(spec, maxview, fault, dead, timeout):
         cfg += "  MaxUndeliveredMessages = 6\n"
     cfg += "CONSTRAINT %s\nINVARIANTS\n%s\n" % (spec["constraint"], "\n".join("  " + i for i in spec["invs"]))
     open(os.path.join(d, "MC.cfg"), "w").write(cfg)
-    rc, out, dt = sh(["tlc", "-workers", "8", "-deadlock", "-config", "MC.cfg", spec["module"] + ".tla"], d, timeout)
+    rc, out, dt = sh(["tlc", "-workers", "4", "-deadlock", "-config", "MC.cfg", spec["module"] + ".tla"], d, timeout)
     viol = re.search(r"Invariant (\w+) is violated", out)
-    res = dict(fault=fault, dead=dead, seconds=round(dt, 1), violated=viol.group(1) if viol else None, finished="Model checking completed" in out)
+    res = dict(maxview=maxview, fault=fault, dead=dead, seconds=round(dt, 1), violated=viol.group(1) if viol else None, finished="Model checking completed" in out)
     if viol:
         tr = os.path.join(d, "trace.txt")
         open(tr, "w").write(out[out.find("Error:"):])
         res["trace"] = tr
     return res
+
+
+def known_match(spec_key, tr):
+    """A recorded known finding matches by (spec, violated invariant, whether a faulty node is needed)."""
+    try:
+        fs = json.load(open(os.path.join(VERIF, "known_findings.json")))["findings"]
+    except Exception:
+        return None
+    for f in fs:
+        if f.get("property") == "C20" and f.get("status") == "known" and f.get("spec") == spec_key and f.get("invariant") == tr["violated"] \
+                and (not f.get("needs_faulty_node") or len(tr["fault"]) > 0):
+            return f
+    return None
 
 
 def main():
@@ -143,13 +157,14 @@ def main():
     bmc_len = int(os.environ.get("C20_BMC", {"quick": 4, "thorough": 8}[tier])) if tier in ("quick", "thorough") else 5
     q_timeout = 900 if tier == "quick" else 3600
     results, problems, violations, notes = {}, [], [], []
+    known_printed = set()
 
     def run_spec(spec):
         if a.only and spec["key"] not in a.only.split(","):
             return spec["key"], None
         r = dict(queries=[], replays=[])
         try:
-            maxview = 2 if spec["mc"] else (1 if tier == "quick" else 2)
+            maxview = spec.get("mc_maxview", 2) if spec["mc"] else (1 if tier == "quick" else 2)
             d = prepare(spec, maxview)
         except Exception as e:
             r["error"] = str(e)
@@ -178,12 +193,37 @@ def main():
             if bm and bm[0]["outcome"] == "Error" and bm[0]["trace"]:
                 r["violation_trace"] = bm[0]["trace"]
             else:
-                for fault, dead in [([], []), ([0], []), ([], [0]), ([0], [0]), ([1], []), ([1], [1]), ([], [1])]:
-                    tr = tlc_replay(spec, maxview, fault, dead, 300 if tier == "quick" else 1800)
+                cfgs = spec.get("replay_configs_thorough" if tier == "thorough" else "replay_configs")
+                if cfgs:
+                    cfgs = [(maxview, f, dd) for f, dd in cfgs]
+                else:
+                    # shipped view bound first (small state spaces: every single-fault placement), then the wider one
+                    one = [([], []), ([0], []), ([1], []), ([2], []), ([3], []), ([], [0]), ([0], [0]), ([1], [1])]
+                    cfgs = [(1, f, dd) for f, dd in one]
+                    if maxview > 1:
+                        cfgs += [(maxview, f, dd) for f, dd in [([], []), ([0], []), ([1], [])]]
+                trs = []
+                phases = [[c3 for c3 in cfgs if c3[0] == 1], [c3 for c3 in cfgs if c3[0] != 1]]
+                for ph in phases:
+                    if not ph or any(t["violated"] and not known_match(spec["key"], t) for t in trs):
+                        continue
+                    with ThreadPoolExecutor(4) as ex2:
+                        for tr in ex2.map(lambda c3: tlc_replay(spec, c3[0], c3[1], c3[2], 900 if tier == "quick" else 3600), ph):
+                            trs.append(tr)
+                # an unfinished wide search does not matter once a narrower one has produced a trace
+                if any(t["violated"] for t in trs):
+                    for t in trs:
+                        t["finished"] = t["finished"] or not t["violated"]
+                for tr in trs:
                     r["replays"].append(tr)
                     if tr["violated"]:
-                        r["violation_trace"] = tr["trace"]
-                        break
+                        kf = known_match(spec["key"], tr)
+                        if kf:
+                            r.setdefault("known", []).append(dict(id=kf["id"], what=kf["what"], trace=tr["trace"], fault=tr["fault"], dead=tr["dead"]))
+                        elif "violation_trace" not in r:
+                            r["violation_trace"] = tr["trace"]
+                    elif not tr["finished"]:
+                        r.setdefault("unfinished", []).append("TLC did not finish for RMFault=%s RMDead=%s" % (tr["fault"], tr["dead"]))
         return spec["key"], r
 
     with ThreadPoolExecutor(5) as ex:
@@ -198,13 +238,23 @@ def main():
         for q in r["queries"]:
             if q["outcome"] not in ("NoError", "Error"):
                 problems.append("%s/%s: apalache outcome %s (rc %s)" % (key, q["name"], q["outcome"], q["rc"]))
+        for u in r.get("unfinished", []):
+            problems.append("%s: %s" % (key, u))
+        for k in r.get("known", []):
+            keep = os.path.join(VERIF, "replays", "C20")
+            os.makedirs(keep, exist_ok=True)
+            dst = os.path.join(keep, "%s-%s-trace.txt" % (key, k["id"]))
+            shutil.copy(k["trace"], dst)
+            if k["id"] not in known_printed:
+                known_printed.add(k["id"])
+                print("KNOWN-FINDING: property=C20 %s %s (RMFault=%s RMDead=%s, replay=%s)" % (k["id"], k["what"][:300], k["fault"], k["dead"], dst))
         if r.get("violation_trace"):
             keep = os.path.join(VERIF, "replays", "C20")
             os.makedirs(keep, exist_ok=True)
             dst = os.path.join(keep, key + "-" + os.path.basename(r["violation_trace"]))
             shutil.copy(r["violation_trace"], dst)
             violations.append((key, dst))
-        elif r.get("alarm"):
+        elif r.get("alarm") and not r.get("known"):
             und = [q for q in r["queries"] if q["outcome"] not in ("NoError", "Error")]
             if not und:
                 notes.append("%s: the inductive-invariant proof was lost on this tree (counterexample to induction) but neither the bounded solver run nor an exhaustive TLC search of the shipped configurations produced a behaviour violating a stated invariant; only the bounded claim (length %d) is made for this spec" % (key, bmc_len))
@@ -212,6 +262,9 @@ def main():
     nq = sum(len(r.get("queries", [])) for r in results.values())
     solver_s = sum(q["seconds"] for r in results.values() for q in r.get("queries", []))
     unb = [k for k, r in results.items() if not r.get("alarm") and any(q["name"] == "q2_step" for q in r.get("queries", []))]
+    for k, r in results.items():
+        for rp in r.get("replays", []):
+            rp.pop("trace", None)
     ev = {
         "property_id": "C20", "tier": tier, "seed": int(os.environ.get("VERIF_SEED", "0") or 0), "level": "model_checking",
         "wall_s": round(time.time() - t0, 1), "violations": len(violations),
